@@ -405,14 +405,20 @@ impl<A: Float> PolytopeG<A> {
         upper: B,
     ) {
         assert!(lower <= upper);
-        if lower.is_infinite() {
+        if lower == B::neg_infinity() {
             bias[idx] = B::one();
+        } else if lower == B::infinity() {
+            // no value is >= +inf: infeasible row 0 <= -1
+            bias[idx] = -B::one();
         } else {
             mat[[idx, axis]] = -B::one();
             bias[idx] = -lower;
         }
-        if upper.is_infinite() {
+        if upper == B::infinity() {
             bias[idx + 1] = B::one();
+        } else if upper == B::neg_infinity() {
+            // no value is <= -inf: infeasible row 0 <= -1
+            bias[idx + 1] = -B::one();
         } else {
             mat[[idx + 1, axis]] = B::one();
             bias[idx + 1] = upper;
